@@ -74,6 +74,7 @@ pub struct Agg {
     pub stats: BTreeMap<String, u64>,
     pub violations: Vec<Trace>,
     pub digests: BTreeMap<u64, (u64, u64)>,
+    pub seed_index: BTreeMap<u64, u64>,
     pub samples: Vec<Value>,
     pub worker_deaths: Vec<String>,
 }
@@ -98,6 +99,7 @@ pub fn add_stats(agg: &mut BTreeMap<String, u64>, s: &RunStats) {
     add("add_filter_err", s.add_filter_err);
     add("optimize_calls", s.optimize_calls);
     add("fused_rule_matched", s.fused_match);
+    add("ops_on_helper_thread", s.ops_on_helper_thread);
     add("alloc_fresh_blocks", s.alloc_fresh);
     add("alloc_recycled_blocks", s.alloc_recycled);
     for (i, n) in adblock::verif_hooks::PROBE_NAMES.iter().enumerate() {
@@ -162,6 +164,7 @@ pub fn worker_hist(prop: &str, seed: u64, start: u64, stride: u64, count: u64, d
         if let Some(v) = o.outcome.violation {
             let mut t = t;
             t.violation = Some(v);
+            let _ = writeln!(l, "I {} {}", t.seed, idx);
             let _ = writeln!(l, "V {}", serde_json::to_string(&t).unwrap());
         }
     }
@@ -180,6 +183,13 @@ pub fn parse_worker_line(line: &str, agg: &mut Agg) {
             agg.digests.insert(idx, (d, a));
             if f[4] == "1" {
                 agg.nontrivial_shapes.insert(shape);
+            }
+        }
+    } else if let Some(rest) = line.strip_prefix("I ") {
+        let f: Vec<&str> = rest.split(' ').collect();
+        if f.len() == 2 {
+            if let (Ok(sd), Ok(ix)) = (f[0].parse::<u64>(), f[1].parse::<u64>()) {
+                agg.seed_index.insert(sd, ix);
             }
         }
     } else if let Some(rest) = line.strip_prefix("V ") {
@@ -434,8 +444,25 @@ pub fn run_hist_check(prop: &str, tier: &str, seed: u64, workers: u64, runs_over
             }
             violations.push((format!("{} / {} / {}", class.0, class.1, v.what), path));
         } else {
-            eprintln!("harness error: violation of run seed {} did not replay (minimise exit {}, replay exit {}): {} {}", t.seed, code, rc, out, rout);
-            harness_error = true;
+            // not reproducible on its own: does it depend on what ran before it in the same process (hidden
+            // state shared between engines)? Re-run the worker's sequence up to this run in a fresh process.
+            let idx = agg.seed_index.get(&t.seed).copied();
+            let mut done = false;
+            if let Some(idx) = idx {
+                let w = idx % workers;
+                let order: Vec<u64> = (0..=idx).filter(|i| i % workers == w).collect();
+                let p = format!("{}/{}-sequence-{}.json", replays_dir, prop, idx);
+                std::fs::write(&p, serde_json::to_string_pretty(&json!({"property": prop, "kind": "sequence", "seed": seed, "order": order, "note": "run the listed run indices in this order in one process: the last one violates the property, although the same run alone does not (state shared between separate engines in one process)"})).unwrap()).unwrap();
+                let (rc2, rout2) = run_child(&["replay", &p]);
+                if rc2 == 1 && rout2.contains("REPRODUCED") {
+                    violations.push((format!("{} / {} / {} (only after the preceding runs of the same process: hidden shared state)", class.0, class.1, v.what), p));
+                    done = true;
+                }
+            }
+            if !done {
+                eprintln!("harness error: violation of run seed {} did not replay (minimise exit {}, replay exit {}): {} {}", t.seed, code, rc, out, rout);
+                harness_error = true;
+            }
         }
     }
 
@@ -459,6 +486,7 @@ pub fn run_hist_check(prop: &str, tier: &str, seed: u64, workers: u64, runs_over
         "add_filter_ok": g("add_filter_ok"),
         "add_filter_rejected": g("add_filter_err"),
         "hash_seed_per_run": runs,
+        "state_change_on_another_thread": g("ops_on_helper_thread"),
     });
     let ev = json!({
         "property_id": prop,
